@@ -173,5 +173,33 @@ pub fn handle_spop(storage: &mut EngineModel, db: usize, parts: &[RespFrame]) ->
 //@@ body
 //@@ end
 
+// ======================= SPOP on the script path (C12: redis.call('SPOP', ...) answers as the direct SPOP does) =========================
+/// MODEL of UnifiedCommandExecutor (the implementation scripts reach through redis.call): the storage engine model
+pub struct UnifiedCommandExecutor { pub storage: EngineModel }
+impl UnifiedCommandExecutor {
+//@@ unit exec_spop arm src/storage/commands/executor.rs UnifiedCommandExecutor::execute_set "SetCommand::SPop { key, count }"
+//@@   params drop "&self" add "&mut self"
+//@@   rewrite? RXPR "members.into_iter().next()" "verif_first_member(members)"
+//@@   rewrite? RXPR "members.into_iter() .map(|m| RespFrame::from_bytes(m)) .collect()" "verif_bulk_frames(members)"
+//@@   rewrite? RT "Some(member) => Ok(RespFrame::from_bytes(member))," "Some(member) => { let f0 = RespFrame::from_bytes(member); proof { assert(popped_of(f0, false) =~= mv); } Ok(f0) },"
+//@@   rewrite? RT "None => Ok(RespFrame::null_bulk())," "None => { let f0 = RespFrame::null_bulk(); proof { assert(popped_of(f0, false) =~= mv); } Ok(f0) },"
+//@@   after "let members = self.storage.spop("
+//@@|     let ghost mv = members@.map_values(|m: Vec<u8>| m@);
+//@@   at "Ok(RespFrame::Array(Some(frames)))"
+//@@|     proof { assert(popped_of(RespFrame::Array(Some(frames)), true) =~= mv); }
+    fn exec_spop(&mut self, db: usize, key: Vec<u8>, count: Option<usize>) -> (r: Result<RespFrame>)
+        ensures ({
+            let n = match count { Some(c) => c, None => 1usize };
+            // the same reply form and the same effect as the direct command (handle_spop above): without a count one bulk string or nil, with a
+            // count an array — also for count 1 and for a missing key
+            match ds_get(old(self).storage.ds@, db as int, key@) {
+                Some(DV::Set(_)) | None => r matches Ok(f) && spop_reply_shape(f, count is Some) && spop_sel(old(self).storage.ds@, final(self).storage.ds@, db as int, key@, n, popped_of(f, count is Some)),
+                Some(_) => !(r matches Ok(f) && !(f is Error)) && final(self).storage.ds@ == old(self).storage.ds@,
+            }
+        }),
+//@@ body
+//@@ end
+}
+
 } // verus!
 fn main() {}
